@@ -28,7 +28,20 @@ def _env():
 
 
 def dump_mir(feat, keep=None):
-    """copy /repo's working tree to scratch, dump MIR with the nightly toolchain; returns (text, srcroot, seconds)"""
+    """copy /repo's working tree to scratch, dump MIR with the nightly toolchain; returns (text, srcroot, seconds).
+    Serialised per feature set with a file lock: concurrent checks share the cargo target directory, and the smawk
+    step removes fingerprints there."""
+    import fcntl
+    os.makedirs(CACHE, exist_ok=True)
+    with open(os.path.join(CACHE, 'mirtarget-%s.lock' % feat), 'w') as lk:
+        fcntl.flock(lk, fcntl.LOCK_EX)
+        try:
+            return _dump_mir(feat)
+        finally:
+            fcntl.flock(lk, fcntl.LOCK_UN)
+
+
+def _dump_mir(feat):
     t0 = time.time()
     os.makedirs(SCRATCH_ROOT, exist_ok=True)
     work = os.path.join(SCRATCH_ROOT, 'src-%s-%d' % (feat, os.getpid()))
